@@ -62,4 +62,86 @@ def tbeCallSeq (ref : T) (items : List Item) : Except String (List Rat) :=
   | .error c => .error c
   | .ok (sups, nboot) => .ok (tbeNormalize ref nboot sups)
 
+/-! ## The moved-taxa tallies (`--moved-taxa` / `--per-branches`; tbe.go:241-262, `UpdateTaxaMoveArrays` :346-389)
+
+  With `computeavgtaxa` / `computeperbranchtaxa` a worker, besides the support cell of the branch it received,
+  updates `sumNbClosestBranches[e.Id()]` and the row `movedperbranch[e.Id()]` (cells of ITS branch) and — under
+  the mutex `mux` — the tallies shared by all the workers of the fan-out: `movedspeciestmp[tip] += 1/#minedges`
+  for every species to move, `nbranchclose++`.  One message of the pool model is what one branch contributes:
+  the new values of its own cells, and its summands for the shared tallies.  After `wg.Wait()` the outer loop
+  folds the shared tallies into `movedspecies` (tbe.go:279-286).  The per-branch function is the body of the fold
+  of `Gotree.C10.logStep` (the one-thread model of C10), branch by branch. -/
+
+open Gotree.C10 in
+/-- what one reference branch contributes for the bootstrap tree `b`:
+    (new raw support, new sumNbClosestBranches cell, new movedperbranch row, summands for movedspeciestmp,
+     summand for nbranchclose) -/
+def tallyEdge (r b : T) (cutoff : Rat) (s : SplitE) (sup nb : Rat) (pb : List (String × Rat)) :
+    Rat × Rat × List (String × Rat) × List (String × Rat) × Nat :=
+  let n := ntips r
+  let md := minDepth cutoff
+  let p := topoDepth n s
+  if p > 1 then
+    if found r.tipNames (tbeIndex b) s then
+      (incr sup 0, nb + 1, pb, [], if p ≥ md then 1 else 0)
+    else
+      let (dist, mins) := minTransferFull (lightOf n s) p n b
+      let k : Rat := ((mins.length : Nat) : Rat)
+      let norm : Rat := (dist : Rat) / ((p : Rat) - 1)
+      let species : List String := mins.flatMap fun m => m.2.1 ++ m.2.2
+      let counted := decide (norm ≤ cutoff) && decide (p ≥ md)
+      let pb' := species.foldl (fun t x => addAt t x (1 / k)) pb
+      (incr sup (dist : Rat), nb + k, pb', if counted then species.map (fun x => (x, 1 / k)) else [], if counted then 1 else 0)
+  else (sup, nb, pb, [], 0)
+
+abbrev TallyItem := Nat × SplitE × Rat × Rat × List (String × Rat)
+abbrev TallyMsg := Nat × Rat × Rat × List (String × Rat) × List (String × Rat) × Nat
+
+def tallyItemFn (r b : T) (cutoff : Rat) (x : TallyItem) : TallyMsg :=
+  (x.1, tallyEdge r b cutoff x.2.1 x.2.2.1 x.2.2.2.1 x.2.2.2.2)
+
+def tallyItems (r : T) (acc : Gotree.C10.Acc) : List TallyItem :=
+  (List.range r.splits.length).zip (r.splits.zip (acc.sups.zip (acc.sumNb.zip acc.perBranch)))
+
+/-- total weight the messages add to the tally cell of tip `x` (the additions happen under the mutex in the
+    order of arrival; over the rationals the order does not matter, over float64 it may change the last bit) -/
+def tmpTotal (out : List TallyMsg) (x : String) : Rat :=
+  (out.map fun m => ((m.2.2.2.2.1.filter (·.1 == x)).map (·.2)).sum).sum
+
+def closeTotal (out : List TallyMsg) : Nat := (out.map fun m => m.2.2.2.2.2).sum
+
+/-- the accumulators after one fan-out, from what the workers delivered (none if a branch is missing) -/
+def tallyCollect (r : T) (acc : Gotree.C10.Acc) (out : List TallyMsg) : Option Gotree.C10.Acc :=
+  match (List.range r.splits.length).mapM fun i => (out.find? (·.1 == i)).map (·.2) with
+  | none => none
+  | some cells =>
+    let close := closeTotal out
+    let moved := if close > 0 then acc.moved.map fun (x, w) => (x, w + tmpTotal out x / ((close : Nat) : Rat)) else acc.moved
+    some ⟨cells.map (·.1), cells.map (·.2.1), moved, cells.map (·.2.2.1)⟩
+
+/-- the outer loop with the tallies, on a stream of good trees: one pool run per tree -/
+def tallyOuter (shape : Shape) (ref : T) (cutoff : Rat) (w cap : Nat) (scheds : Nat → List (Nat × Nat)) :
+    List T → Nat → Gotree.C10.Acc → Option Gotree.C10.Acc
+  | [], _, acc => some acc
+  | b :: rest, k, acc =>
+    let fin := runToEnd shape (tallyItemFn ref b cutoff) (fun _ => false) w cap (tallyItems ref acc) (scheds k)
+    match tallyCollect ref acc fin.out with
+    | none => none
+    | some acc' => tallyOuter shape ref cutoff w cap scheds rest (k + 1) acc'
+
+def tallySeq (ref : T) (cutoff : Rat) : List T → Gotree.C10.Acc → Option Gotree.C10.Acc
+  | [], acc => some acc
+  | b :: rest, acc =>
+    match tallyCollect ref acc ((tallyItems ref acc).map (tallyItemFn ref b cutoff)) with
+    | none => none
+    | some acc' => tallySeq ref cutoff rest acc'
+
+def tallyAcc0 (r : T) : Gotree.C10.Acc :=
+  let zero : List (String × Rat) := r.tipNames.map fun x => (x, 0)
+  ⟨r.splits.map fun _ => NIL, r.splits.map fun _ => 0, zero, r.splits.map fun _ => zero⟩
+
+/-- the `Taxon tIndex` table of the log: `movedspecies[tip] * 100 / nboot` -/
+def taxaTable (acc : Gotree.C10.Acc) (nboot : Nat) : List (String × Rat) :=
+  acc.moved.map fun (x, w) => (x, w * 100 / ((nboot : Nat) : Rat))
+
 end Gotree.C11
